@@ -827,23 +827,32 @@ static void out_chain(KSI_AggregationHashChain *c) {
 }
 static int run_tree(int k) {
 	KSI_TreeBuilder *tb = NULL;
-	KSI_TreeLeafHandle *leaf[6] = {NULL, NULL, NULL, NULL, NULL, NULL};
+	KSI_TreeLeafHandle *leaf[8] = {NULL, NULL, NULL, NULL, NULL, NULL, NULL, NULL};
 	KSI_AggregationHashChain *c1 = NULL, *c2 = NULL;
-	int res, i;
-	(void)k;
+	int res, i, retried = 0;
+	/* k == 1: a step that fails under the fault is repeated once, without a fault, on the SAME builder and the work goes on: the tree
+	 * that comes out is the fault-free tree (a refused leaf leaves the builder as it was) */
+#define STEP(x) do { res = (x); if (res != KSI_OK) { int first_ = res; if (k != 1 || retried) { g_fail_line = __LINE__; goto done; } retried = 1; fault_off(); res = (x); \
+		if (res != KSI_OK) { failf("repeat-differs", "tree builder: a step failed with 0x%x under the fault; repeated on the same builder without a fault it fails with 0x%x", first_, res); g_fail_line = __LINE__; goto done; } } } while (0)
 	CK(KSI_TreeBuilder_new(G.ctx, KSI_HASHALG_SHA2_256, &tb));
-	for (i = 0; i < 3; i++) CK(KSI_TreeBuilder_addDataHash(tb, G.dh[i], 0, &leaf[i]));
-	CK(KSI_TreeBuilder_addMetaData(tb, G.md, 0, &leaf[3]));
-	CK(KSI_TreeBuilder_addDataHash(tb, G.dh[3], 1, &leaf[4]));
-	CK(KSI_TreeBuilder_addDataHash(tb, G.dh[4], 0, &leaf[5]));
-	CK(KSI_TreeBuilder_close(tb));
-	CK(KSI_TreeLeafHandle_getAggregationChain(leaf[1], &c1));
-	CK(KSI_TreeLeafHandle_getAggregationChain(leaf[3], &c2));
+	for (i = 0; i < 3; i++) STEP(KSI_TreeBuilder_addDataHash(tb, G.dh[i], 0, &leaf[i]));
+	STEP(KSI_TreeBuilder_addMetaData(tb, G.md, 0, &leaf[3]));
+	STEP(KSI_TreeBuilder_addDataHash(tb, G.dh[3], 1, &leaf[4]));
+	STEP(KSI_TreeBuilder_addDataHash(tb, G.dh[4], 0, &leaf[5]));
+	if (k == 1) {
+		/* two more leaves: the eighth node carries over three slots */
+		STEP(KSI_TreeBuilder_addDataHash(tb, G.dh[0], 0, &leaf[6]));
+		STEP(KSI_TreeBuilder_addDataHash(tb, G.dh[1], 0, &leaf[7]));
+	}
+	STEP(KSI_TreeBuilder_close(tb));
+	STEP(KSI_TreeLeafHandle_getAggregationChain(leaf[1], &c1));
+	STEP(KSI_TreeLeafHandle_getAggregationChain(leaf[3], &c2));
+#undef STEP
 done:
 	fault_off();
 	if (res == KSI_OK) { out_hash(tb->rootNode ? tb->rootNode->hash : NULL); out_chain(c1); out_chain(c2); }
 	KSI_AggregationHashChain_free(c1); KSI_AggregationHashChain_free(c2);
-	for (i = 0; i < 6; i++) KSI_TreeLeafHandle_free(leaf[i]);
+	for (i = 0; i < 8; i++) KSI_TreeLeafHandle_free(leaf[i]);
 	KSI_TreeBuilder_free(tb);
 	return res;
 }
@@ -1414,6 +1423,7 @@ static const op_t OPS[] = {
 	{"extend-nearest-ctx", su_extend, run_extend, 3},
 	{"extend-to-tcp-pdu-v1", su_extend, run_extend, 4},
 	{"tree-builder", su_tree, run_tree, 0},
+	{"tree-builder-retry-step", su_tree, run_tree, 1},
 	{"builder-append-chain", su_builder, run_builder, 0},
 	{"builder-reclose", su_builder, run_builder, 1},
 	{"builder-from-parts", su_builder, run_builder, 2},
